@@ -95,6 +95,11 @@ Proof.
   f_equal. apply (E 0); lia. apply IHl1. lia. intros i Hi. apply (E (S i)); lia.
 Qed.
 
+Lemma skipn_cons_nth (l : list A) k d : k < length l -> skipn k l = nth k l d :: skipn (S k) l.
+Proof.
+  revert k; induction l; simpl; intros k H; [lia|]. destruct k; simpl; auto. apply IHl; lia.
+Qed.
+
 Lemma repeat_snoc (v : A) n : repeat v (S n) = repeat v n ++ [v].
 Proof. induction n; simpl in *; congruence. Qed.
 
